@@ -92,6 +92,9 @@ def spectrum(rng, k, kind):
         s[r:] = 0.0
     elif kind == "zero":
         s = np.zeros(k)
+    elif kind == "smalltail":
+        t = float(2.0 ** -int(rng.integers(2, 20)))
+        s = np.array([1.0] + [np.sqrt(rng.choice([0.3, 0.6, 0.9]) * t)] * (k - 1))
     elif kind == "dyadic":
         s = np.sort(rng.integers(0, 65, size=k) / 64.0)[::-1]
     else:
@@ -99,7 +102,7 @@ def spectrum(rng, k, kind):
     return [float(x) for x in s]
 
 
-KINDS = ("decay", "ties", "rankdef", "zero", "dyadic", "uniform")
+KINDS = ("decay", "ties", "rankdef", "zero", "dyadic", "uniform", "smalltail")
 
 
 def tie_threshold(s, j):
